@@ -41,6 +41,9 @@ def run_seed(path, repo="/repo"):
     meta = json.load(open(os.path.join(path, "meta.json")))
     name = "seeded:" + meta["id"]
     props = meta["breaks_property"].split(",")
+    if meta.get("not_caught"):
+        # stored with its demonstration although no rule reports it (DESIGN.md 8.9): listed, not counted as detected
+        return name, "recorded_miss", "no rule reports this stored change: " + str(meta.get("not_caught_reason", ""))[:160]
     if ONLY_PROP:
         props = [p for p in props if p == ONLY_PROP]
     d = tempfile.mkdtemp(prefix="astisub-seed-")
